@@ -16,6 +16,8 @@ C03 — property theorems (DESIGN.md §4 C03) over the model `Model/C03.lean`.
   5. `closed_loop_inv` (+ `used_never_above_max_interleaved`, `np_used_never_above_min_interleaved`) — the
      interleaved form: informer events between the admitting PreFilter and its Reserve;
      `interleaved_reparent_counterexample`, `interleaved_arrival_counterexample` — the interleavings that break it.
+  7. `exclusive_unreserve_single_subtraction`, `shared_unreserve_counterexample` — Unreserve(p) ∥ OnPodDelete(p) at
+     critical-section granularity: the exclusive lock gives a single subtraction under every interleaving.
 -/
 namespace KoordVerif.C03
 
@@ -93,7 +95,7 @@ def dqState : State := quotaSet (init 1) 1 rootName false true (fun d => if d = 
 
 /-- a pod of that quota asking for cpu = 8. -/
 def dqPod : Pod :=
-  { id := 1, quota := 1, np := false, req := fun d => if d = 0 then some 8 else none, inCache := true, assigned := false }
+  { id := 1, quota := 1, label := 1, np := false, req := fun d => if d = 0 then some 8 else none, inCache := true, assigned := false }
 
 /-- admitted in runtime mode although used + request = 8 > max = 4; rejected with the runtime switch off. -/
 theorem default_quota_counterexample :
@@ -414,13 +416,55 @@ theorem podAdd_inv (cp : Bool) (s : State) (id : Nat) (hI : Inv cp s) : Inv cp (
   | none => exact hI
   | some p =>
     simp only []
-    cases hq : findQ s.quotas p.quota with
+    cases hq : findQ s.quotas (homeOf s p) with
     | none => exact hI
     | some q =>
       simp only []
       split
       · exact hI
       · exact inv_pods cp s _ (setPod_req _ _ _ (fun _ => rfl) hI.reqNonneg) hI
+
+/-- a migration tick that moves only pods that are not assigned (yet) changes no group. -/
+theorem migrate_quotas (s : State) : ∀ (L : List Pod) (st : State), (∀ p ∈ L, p.assigned = false) →
+    st.quotas = s.quotas → st.dims = s.dims → (∀ p ∈ st.pods, ∀ d, 0 ≤ val p.req d) →
+    (L.foldl migrateOne st).quotas = s.quotas ∧ (L.foldl migrateOne st).dims = s.dims ∧
+      ∀ p ∈ (L.foldl migrateOne st).pods, ∀ d, 0 ≤ val p.req d := by
+  intro L
+  induction L with
+  | nil => intro st _ h1 h2 h3; exact ⟨h1, h2, h3⟩
+  | cons p L ih =>
+    intro st hL h1 h2 h3
+    have hp := hL p List.mem_cons_self
+    rw [List.foldl_cons]
+    apply ih _ (fun x hx => hL x (List.mem_cons_of_mem _ hx))
+    all_goals
+      unfold migrateOne
+      cases findQ st.quotas p.quota with
+      | none => first | exact h1 | exact h2 | exact h3
+      | some qd =>
+        cases findQ st.quotas p.label with
+        | none => first | exact h1 | exact h2 | exact h3
+        | some qx =>
+          simp only [hp, Bool.false_eq_true, if_false]
+          first
+            | exact h1
+            | exact h2
+            | exact setPod_req _ _ _ (fun _ => rfl) h3
+
+theorem migrate_inv (cp : Bool) (s : State) (h : ∀ p ∈ s.pods, limbo s p = true → p.assigned = false)
+    (hI : Inv cp s) : Inv cp (migrate s) := by
+  have hL : ∀ p ∈ s.pods.filter (limbo s), p.assigned = false := by
+    intro p hp
+    have := List.mem_filter.mp hp
+    exact h p this.1 this.2
+  rcases migrate_quotas s (s.pods.filter (limbo s)) s hL rfl rfl hI.reqNonneg with ⟨h1, h2, h3⟩
+  unfold migrate
+  refine ⟨?_, ?_, ?_, h3, ?_, ?_⟩
+  · rw [h1]; exact hI.nodup
+  · rw [h1]; exact hI.rootMax
+  · rw [h1]; exact hI.nonneg
+  · rw [h1, h2]; exact hI.usedLeMax
+  · rw [h1, h2]; exact hI.npLeMin
 
 theorem podDef_inv (cp : Bool) (s : State) (id quota : Nat) (np : Bool) (req : RL) (hreq : ∀ d, 0 ≤ val req d)
     (hI : Inv cp s) : Inv cp (podDef s id quota np req) := by
@@ -566,6 +610,7 @@ def EvOK (cp : Bool) (s : State) : Ev → Prop
       ∀ q, findQ s.quotas n = some q → NotLowered q.max mx ∧ NotLowered q.min mn ∧ MetaOK cp s q parent ip l mx mn
   | .ext (.podDef _ _ _ req) => ∀ d, 0 ≤ val req d
   | .ext (.reserve _) => False
+  | .ext .migrate => ∀ p ∈ s.pods, limbo s p = true → p.assigned = false
   | .ext _ => True
 
 def Valid (cp : Bool) : State → List Ev → Prop
@@ -603,6 +648,8 @@ theorem runEv_inv (cp : Bool) (s : State) (e : Ev) (hI : Inv cp s) (hok : EvOK c
     | reserve id => exact (hok : False).elim
     | unreserve id => exact unreserve_inv cp s id hI
     | podDelete id => exact podDelete_inv cp s id hI
+    | setDefault n => exact ⟨hI.nodup, hI.rootMax, hI.nonneg, hI.reqNonneg, hI.usedLeMax, hI.npLeMin⟩
+    | migrate => exact migrate_inv cp s hok hI
 
 /-
 DESIGN §4 C03 T3 for histories in which a scheduling cycle is atomic (`Ev.cycle` = PreFilter + Reserve iff admitted).
@@ -877,7 +924,8 @@ inductive IEv where
   | reserve
   | ext (op : Op)
 
-/-- quota updates after which an open admission is dropped (the pod goes back to the queue): a group appears, is
+/-- events after which an open admission is dropped (the pod goes back to the queue): a migration tick, a pod filed
+    under another group than before, and the quota updates by which a group appears, is
     re-parented, or the tree is reset.  For a re-parenting that touches the admitted pod's path this is necessary
     (`interleaved_reparent_counterexample`, `interleaved_arrival_counterexample`); the others are not covered by the proof. -/
 def dropsPending (s : State) : Op → Bool
@@ -885,6 +933,11 @@ def dropsPending (s : State) : Op → Bool
     match findQ s.quotas n with
     | none => true
     | some q => !(decide (q.parent = parent) && decide (q.isParent = ip) && decide (q.lent = l))
+  | .podAdd i =>
+    match findP s.pods i with
+    | some p => !p.inCache && (homeOf s p != p.quota)   -- the pod is filed under another group than before
+    | none => false
+  | .migrate => true
   | _ => false
 
 def runI (is : IState) : IEv → IState
@@ -1001,15 +1054,42 @@ theorem ext_fits (cp : Bool) (s : State) (op : Op) (hI : Inv cp s) (hok : EvOK c
     | none => exact same
     | some pi =>
       simp only []
-      cases hqi : findQ s.quotas pi.quota with
+      cases hqi : findQ s.quotas (homeOf s pi) with
       | none => exact same
       | some qi =>
         simp only []
-        split
-        · exact same
-        · rcases setPodFind i (fun x => { x with inCache := true, assigned := false }) (fun _ => rfl) (fun _ => rfl)
-            (fun _ => rfl) (fun _ => rfl) with ⟨p', h0, h1, h2, h3⟩
-          exact viaPods _ p' h0 h1 h2 h3
+        by_cases hc : pi.inCache = true
+        · simp only [hc, if_true]; exact same
+        · simp only [hc, Bool.false_eq_true, if_false]
+          simp only [dropsPending, hpi] at hnd
+          have hci : pi.inCache = false := by simpa using hc
+          have hhome : homeOf s pi = pi.quota := by
+            simpa [hci] using hnd
+          have hpe : p.id = i → pi = p := by
+            intro h
+            have hp' := hp
+            unfold findP at hp'
+            have hid : p.id = id := by simpa using List.find?_some hp'
+            have e : findP s.pods i = findP s.pods id := by rw [← h, hid]
+            rw [e, hp] at hpi; cases hpi; rfl
+          refine ⟨if p.id = i then { p with quota := homeOf s pi, inCache := true, assigned := false } else p, q, ?_, ?_, ?_⟩
+          · show findP (setPod s.pods i _) id = _
+            rw [findP_setPod s.pods i id (fun x => { x with quota := homeOf s pi, inCache := true, assigned := false })
+              (fun _ => rfl), hp]
+            rfl
+          · show findQ s.quotas _ = some q
+            by_cases hpid : p.id = i
+            · have := hpe hpid
+              subst this
+              simp only [hpid, if_true, hhome]; exact hq
+            · simp only [hpid, if_false]; exact hq
+          · by_cases hpid : p.id = i
+            · have := hpe hpid
+              subst this
+              simp only [hpid, if_true]
+              exact fits_congr cp s _ pi _ q (by show homeOf s pi = pi.quota; exact hhome) rfl rfl hF
+            · simp only [hpid, if_false]
+              exact fits_congr cp s _ p p q rfl rfl rfl hF
   | attempt i cfg =>
     have : (step s (Op.attempt i cfg)).1 = s := by simp only [step]; cases findP s.pods i <;> rfl
     rw [this]; exact same
@@ -1072,6 +1152,8 @@ theorem ext_fits (cp : Bool) (s : State) (op : Op) (hI : Inv cp s) (hok : EvOK c
               (fun g hg d => release_le s _ _ _ _ hm0 (by intro d; split; exact hm0 d; exact Int.le_refl _) g (hI.nonneg g hg) d)
               (by intro g _; by_cases h : g.name ∈ pathNames s pi.quota <;> simp [h, addUsed] <;> exact ⟨notLowered_refl _, notLowered_refl _⟩)
               h0 h1 h2 h3
+  | setDefault n => exact ⟨p, q, hp, hq, hF⟩
+  | migrate => simp [dropsPending] at hnd
 
 theorem runI_inv (cp : Bool) (is : IState) (e : IEv) (hI : IInv cp is) (hok : IEvOK cp is e) : IInv cp (runI is e) := by
   obtain ⟨hInv, hPend⟩ := hI
@@ -1219,5 +1301,34 @@ example : ((ex2At 15).st.quotas.map fun g => (g.name, g.lent, g.used 0, g.npUsed
     [(0, false, 1, 1, 0), (1, false, 0, 0, 0), (3, true, 1, 1, 0), (2, true, 1, 1, 1)] := by decide
 
 end Examples2
+
+/-! ### 7. a roll-back racing the deletion of the same pod gives the usage back once -/
+
+/-- with `UnreservePod` under the exclusive lock (and `OnPodDelete` under the shared one, as in the source): under
+    EVERY interleaving of the two critical sections (all 64 schedules of 6 steps; each call has at most 3) that
+    the lock admits and that lets both calls finish, the pod's request is subtracted exactly once and the `PodInfo`
+    is gone. -/
+theorem exclusive_unreserve_single_subtraction :
+    ∀ sched ∈ allScheds 6, ∀ s, lRun unreserveLock podDeleteLock sched lInit = some s →
+      s.pcU = .done → s.pcD = .done → s.subs = 1 ∧ s.present = false ∧ s.assigned = false := by
+  decide
+
+/-- both serial orders are among them (the property is not vacuous). -/
+theorem exclusive_unreserve_schedules_exist :
+    (lRun unreserveLock podDeleteLock [true, true, true, false, false, false] lInit).map (fun s => (s.subs, s.pcU, s.pcD)) =
+      some (1, .done, .done) ∧
+    (lRun unreserveLock podDeleteLock [false, false, false, true, true, true] lInit).map (fun s => (s.subs, s.pcU, s.pcD)) =
+      some (1, .done, .done) ∧
+    lRun unreserveLock podDeleteLock [true, false] lInit = none := by
+  decide
+
+/-- the shared-lock shape (`UnreservePod` under `RLock()`): both calls pass the `isAssigned` test before either
+    subtracts, and the request is subtracted twice — out of the usage of the other pods (group with pods 4 + 6,
+    the 6 rolled back and deleted: used 10 - 6 - 6, clamped to 0, instead of 4). -/
+theorem shared_unreserve_counterexample :
+    (lRun .shared podDeleteLock [true, false, true, false, true, false] lInit).map (fun s => (s.subs, s.pcU, s.pcD)) =
+      some (2, .done, .done) ∧
+    clamp0 (clamp0 (10 - 6) - 6) = 0 := by
+  decide
 
 end KoordVerif.C03
